@@ -220,6 +220,9 @@ func checkC05(R *Run) {
 	R.rule("authorize-sound", "(*ClientConn).Authorize(i) returns false for a nil account and otherwise exactly Account.Access.IsSet(i)")
 	R.rule("login-name-guard", "in the login sequence a client-supplied display name is stored only on the true edge of Authorize(26 any-name) of that same connection")
 
+	R.ruleKindTargetAgree()
+	R.ruleSpecialFolder()
+
 	var spec privSpec
 	if err := readSpec("privileges.json", &spec); err != nil {
 		R.und("handler-table", "spec/privileges.json", "-", "cannot read spec: "+err.Error())
